@@ -1402,9 +1402,9 @@ def translate_sources(sources, origin="deap/tools/selection.py, deap/tools/emo.p
             trees[key] = ast.parse(sources[key])
             tops[key], d = check_module(trees[key], wanted)
             defs.update(d)
-        except SyntaxError as e:
+        except (SyntaxError, ValueError, RecursionError, MemoryError) as e:
             for w in wanted:
-                defs[w] = Refuse("Module", "syntax error: %s" % e)
+                defs[w] = Refuse("Module", "source does not parse: %s" % e)
         except Refuse as r:
             for w in wanted:
                 defs[w] = r
@@ -1427,9 +1427,10 @@ def translate_sources(sources, origin="deap/tools/selection.py, deap/tools/emo.p
             text = "(* REFUSED %s: %s -- placeholder: the hand model, tied by the correspondence only *)\n" \
                    "Definition gen_%s %s : M (list ind) :=\n  %s.\n" % (name, str(r).replace("*)", "* )"), name, sig, model)
             ft = FnT([(p, PARAM_TYPES[p]) for p in params], "list ind", needs_w)
-        except RecursionError:
-            status[name] = Refuse("FunctionDef", "source nested too deeply")
-            text = "Definition gen_%s %s : M (list ind) :=\n  %s.\n" % (name, sig, model)
+        except Exception as e:  # noqa  (a translator crash on an unforeseen construct is a refusal: fail closed)
+            status[name] = Refuse("FunctionDef", "translator error %s: %s" % (type(e).__name__, e))
+            text = "(* REFUSED %s: translator error -- placeholder: the hand model *)\n" \
+                   "Definition gen_%s %s : M (list ind) :=\n  %s.\n" % (name, name, sig, model)
             ft = FnT([(p, PARAM_TYPES[p]) for p in params], "list ind", needs_w)
         if key != "emo":
             glob[name] = ft
